@@ -258,7 +258,7 @@ def _atom_of(value):
     return None
 
 
-def resolve_item(value, next_result, shape):
+def resolve_item(value, next_result, shape, prefix=('Some', '0')):
     """Resolve `value`, an expression inside a loop over a stream with item shape `shape`, to
     (leaf shape, remaining field names): ('elem', C) = the k-th element of container C, ('pos', ..) = k itself.
     Understands projections of the stream item and C[k] indexing with k the stream position.  None if unrelated."""
@@ -281,7 +281,7 @@ def resolve_item(value, next_result, shape):
             cur = cur.args[0]
             continue
         if cur.kind == 'app' and cur.name == 'elem':
-            r = resolve_item(cur.args[1], next_result, shape)
+            r = resolve_item(cur.args[1], next_result, shape, prefix)
             if r is not None and r[0][0] == 'pos' and not r[1]:
                 fields.reverse()
                 out = []
@@ -294,9 +294,9 @@ def resolve_item(value, next_result, shape):
     p = []
     for f in fields:
         p.extend(f.split('.'))
-    if p[:2] != ['Some', '0']:
+    if p[:len(prefix)] != list(prefix):
         return None
-    p = p[2:]
+    p = p[len(prefix):]
     cur = shape
     while p and cur[0] == 'pair':
         if p[0] not in ('0', '1'):
